@@ -644,10 +644,18 @@ func (rc *replayCtx) groundCheck(dir, name string, c []*cval, observed string, i
 		facts = append(facts, Eq(o.T, T(o.T.Sort, strings.TrimSpace(parts[i]))))
 	}
 	nd, na := rc.e.sc.Mark()
-	// precondition holds and the clause is false?
-	q := rc.e.sc.Query(nd, na, append(facts, rc.pre, Not(rc.goal)), nil)
-	r := Solve(dir, fmt.Sprintf("%s-ground-%d", name, idx), q, 10, false, 0)
-	return r.Status == "sat", r.Status
+	// The clause must be false on these values under EVERY interpretation of the uninterpreted functions
+	// it mentions (otherwise a "failure" could be an artefact of an abstraction): inputs+precondition must be
+	// consistent, and inputs+precondition+clause must be unsatisfiable.
+	base := append(append([]Term{}, facts...), rc.pre)
+	q1 := rc.e.sc.Query(nd, na, base, nil)
+	r1 := Solve(dir, fmt.Sprintf("%s-ground-%d-pre", name, idx), q1, 10, false, 0)
+	if r1.Status == "unsat" {
+		return false, "precondition not satisfied by this input"
+	}
+	q2 := rc.e.sc.Query(nd, na, append(base, rc.goal), nil)
+	r2 := Solve(dir, fmt.Sprintf("%s-ground-%d", name, idx), q2, 10, false, 0)
+	return r2.Status == "unsat", "clause unsatisfiable on observed values: " + r2.Status
 }
 
 // replayViolation tries to confirm a failed obligation on the real code. It returns the replay file and
